@@ -131,16 +131,8 @@ pub trait O {
     fn e(&self, x: u8) -> u32;
 }
 
-// `sides` has no receiver: it is skipped by the macro but still occupies a position in the
-// `unmock_with` list.
-#[unimock(api=FMock, unmock_with=[_, _, _, real_unm, real_both])]
+#[unimock(api=FMock, unmock_with=[_, _, real_unm, real_both])]
 pub trait F {
-    fn sides() -> u32
-    where
-        Self: Sized,
-    {
-        4
-    }
     fn plain(&self, x: u8) -> u32;
     fn def(&self, x: u8) -> u32 {
         log(LogEv::DefaultBody(M::Def, x));
@@ -163,12 +155,27 @@ pub trait P {
     fn prov(&self) -> u32 {
         7
     }
+    /// by-value provided method: the instance itself travels through the delegation helper and is
+    /// dropped (verified, if it is the original) when the default body ends
+    fn consume(self) -> u32
+    where
+        Self: Sized,
+    {
+        8
+    }
 }
 
 /// A trait with a generic method: every instantiation is a distinct mocked method (C18).
 #[unimock(api=GMock)]
 pub trait G {
     fn g<T: core::fmt::Debug + Into<u64> + Copy + 'static>(&self, x: T) -> u32;
+}
+
+/// A trait whose methods take no arguments (call rendering `Z::ping()`).
+#[unimock(api=ZMock)]
+pub trait Z {
+    fn ping(&self) -> u32;
+    fn pong(&self) -> u32;
 }
 
 pub fn real_unm(_: &impl core::any::Any, x: u8) -> u32 {
